@@ -1,5 +1,6 @@
 """Rules over the driver-level access logs (S-LAYOUT, S-GATE, S-FILEFX, R12 sibling agreement, R13 ordering,
 R05 authenticated reads, R18 stream IVs, R15 singleton pairing)."""
+import re
 from wai import interp, models
 from wai.facts import AnalysisBroken, walk, strip, loc as nloc
 from wai.values import *
@@ -39,7 +40,16 @@ class GateListener:
             return
         l = (dst[1], dst[2])
         if dst[2] and isinstance(dst[2][-1], int):
-            return      # array element destinations stay anonymous
+            # a few bytes read into an array (a local header block): each byte is the file byte at its offset;
+            # larger array destinations stay anonymous
+            if size[1] <= 4 and pos[0] == 'c':
+                full = compare('==', got, size, st.sym) if is_int(got) else None
+                for i in range(size[1]):
+                    nm = '$file:%s:%d:1' % (root, pos[1] + i)
+                    st.sym[nm] = (0, 255)
+                    st.mem[(dst[1], dst[2][:-1] + (dst[2][-1] + i,))] = sym(nm)
+                    st.comps[('short', nm)] = full is not True
+            return
         nm = '$file:%s:%s:%d' % (root, show(pos), size[1])
         # the bytes are read into an object of some type: a signed destination sees the same bytes as a signed number
         signed_dst = False
@@ -152,13 +162,9 @@ class DriverRules:
         """gethlen() of every concrete hasher class, from the code."""
         if self._digest_lens is None:
             prog = self.prog
-            lens = {}
-            for f in prog.functions.values():
-                if f['name'] == 'gethlen' and f.get('rec'):
-                    I = interp.Interp(prog, models=dict(models.STD_MODELS))
-                    r = I.run(f, interp.State(), this=P(('ext', 'h'), ()))
-                    if len(r) == 1 and r[0][1][0] == 'c':
-                        lens[f['rec']] = r[0][1][1]
+            from wai.facts import const_getters
+            base = next((r['q'] for r in prog.records.values() if any(m['n'] == 'gethlen' for m in r['methods']) and not prog.all_bases(r['q'])), None)
+            lens = {q: v['gethlen'] for q, v in const_getters(prog, base, ('gethlen',)).items() if 'gethlen' in v} if base else {}
             if len(lens) < 3:
                 raise AnalysisBroken('digest lengths of the hasher classes not found')
             self._digest_lens = lens
@@ -192,6 +198,8 @@ class DriverRules:
                     d = ('byte', (v >> (8 * i)) & 0xff) if isinstance(v, int) else ('byte', v[i])
                 elif kind[0] == 'zero':
                     d = ('byte', 0)
+                elif kind[0] == 'bytes':
+                    d = kind[1][i]
                 elif kind[0] == 'loc':
                     path = kind[2]
                     if path and isinstance(path[-1], int):
@@ -263,7 +271,14 @@ class DriverRules:
                 bm = _BM(bm)
                 okm = magic is not None and all(bm[i] == ('byte', (magic >> (8 * i)) & 0xff) for i in range(8))
                 rec.ob('R02.a', 'R02.a@%s::magic-at-0' % fkey(f), okm, where, 'T=%d: bytes [0,8) are the magic constant %s' % (T, hex(magic) if magic else '?'))
-                okc = bm[8][0] == 'loc' and bm[8][2] and str(bm[8][2][-1]).endswith('::ctype') and bm[9][0] == 'loc' and bm[9][2] and str(bm[9][2][-1]).endswith('::htype')
+                def from_member(d, suffix):
+                    # written straight from the member, or a byte that holds the (named) value the member has
+                    if d[0] == 'loc' and d[2] and str(d[2][-1]).endswith(suffix):
+                        return True
+                    if d[0] == 'val':
+                        return any(k[1] and str(k[1][-1]).endswith(suffix) and v_[0] == 'l' and show(v_) == d[1] for k, v_ in s.mem.items())
+                    return False
+                okc = from_member(bm[8], '::ctype') and from_member(bm[9], '::htype')
                 rec.ob('R02.a', 'R02.a@%s::mode-bytes-at-8-9' % fkey(f), okc, where, 'T=%d: byte 8 <- %s, byte 9 <- %s' % (T, bm[8][1:], bm[9][1:]))
                 okz = all(bm[i] == ('byte', 0) for i in range(10, 48))
                 rec.ob('R02.b', 'R02.b@%s::tag-area-zero' % fkey(f), okz, where, 'T=%d: bytes [10,48) written as zeros before the body' % T)
@@ -551,6 +566,15 @@ class DriverRules:
                 for e in accesses(s, kinds=('W',)):
                     if e[1] == 'out' and e[4][0] == 'loc' and e[4][2] and isinstance(e[4][2][-1], str) and e[2][0] == 'c' and e[3][0] == 'c' and e[3][1] <= 8:
                         wmap.setdefault(e[4][2][-1], set()).add((e[2][1], e[3][1]))
+                    elif e[1] == 'out' and e[4][0] == 'bytes' and e[2][0] == 'c':
+                        # a block assembled in memory: a byte that holds the named value of a scalar member stands for that member
+                        for i, d in enumerate(e[4][1]):
+                            if d[0] != 'val':
+                                continue
+                            holders = [k for k, v_ in s.mem.items() if k[1] and isinstance(k[1][-1], str) and v_[0] == 'l' and show(v_) == d[1]
+                                       and k[0] == RC]
+                            for k in holders:
+                                wmap.setdefault(k[1][-1], set()).add((e[2][1] + i, 1))
         wmap = {k: next(iter(v)) for k, v in wmap.items() if len(v) == 1}
         nchk = 0
         for op in ('decrypt', 'verify'):
@@ -568,6 +592,14 @@ class DriverRules:
                             got[e[4][2][-1]] = (e[2], e[3], e[5])
                             direct.add(e[4][2][-1])
                     accepted = iv is not None and compare('==', ev[iv][1], C(0), s.sym) is True
+                    # a member that was not the destination of a read may still hold a byte read elsewhere (a local header block):
+                    # file bytes are named by their offset
+                    for k, v_ in s.mem.items():
+                        if k[0] == RC and k[1] and k[1][-1] in wmap and k[1][-1] not in got and v_[0] == 'l' and len(v_[2]) == 1 and v_[1] == 0:
+                            m_ = re.match(r'^\$file:fin:(\d+):(\d+)$', str(v_[2][0][0]))
+                            if m_:
+                                got[k[1][-1]] = (C(int(m_.group(1))), C(int(m_.group(2))), '%s:%s' % (f['file'], f['line']))
+                                direct.add(k[1][-1])
                     paths.append((T, got, accepted, s))
             for T, got, accepted, s in paths:
                 for fld, (pos, size, wh) in got.items():
@@ -661,6 +693,15 @@ class DriverRules:
                     inrange = pos.isdigit() and int(pos) >= 48
                     src = next((x for x in ev if x[0] == 'R' and x[1] == 'fin' and show(x[2]) == pos), None)
                     name = src[4][2][-1] if src and src[4][0] == 'loc' and src[4][2] else pos
+                    if not isinstance(name, str) or '::' not in name:
+                        # read into a local block and copied out: name the member that holds this file byte
+                        holder = sorted(str(k[1][-1]) for k, v_ in s.mem.items() if k[0] == RC and k[1] and isinstance(k[1][-1], str)
+                                        and v_[0] == 'l' and any(x == sy for x, _ in v_[2]))
+                        if holder:
+                            name = holder[0]
+                        if src is None:
+                            src = next((x for x in ev if x[0] == 'R' and x[1] == 'fin' and x[2][0] == 'c' and x[3][0] == 'c'
+                                        and pos.isdigit() and x[2][1] <= int(pos) < x[2][1] + x[3][1]), None)
                     rdfn = None
                     if src is not None:
                         cands = [g for g in self.prog.functions.values() if g['q'] == src[6]]
